@@ -4,6 +4,7 @@
 package main
 
 import (
+	"crypto/ed25519"
 	"crypto/rand"
 	"crypto/elliptic"
 	"crypto/ecdsa"
@@ -233,6 +234,35 @@ func (w *vWorld) publishedOK() bool {
 		return false
 }
 
+// certProbes: well-formed certificate requests (x509, ssh with an Ed25519 key - signed by the second CA key when
+// there is one - and ssh with an EC key) to a server that must still be sealed
+func (w *vWorld) certProbes(ci int, emit func(map[string]interface{}), pre string) {
+	edPub, _, err := ed25519.GenerateKey(rand.Reader)
+	vMust(err)
+	for _, kind := range []string{"x509", "ssh-ed25519", "ssh-ec"} {
+		for _, cred := range []string{"basic", "cookie"} {
+			q := vReq{Method: "POST", Path: "/certgen/alice?type=ssh", BodyType: "multipart", Form: url.Values{"duration": {"1h"}}}
+			switch kind {
+			case "x509":
+				q.Path, q.PubKey = "/certgen/alice?type=x509", vPEMPub(&vUserEC.PublicKey)
+			case "ssh-ed25519":
+				q.PubKey = vSSHPub(edPub)
+			default:
+				q.PubKey = vSSHPub(&vUserEC.PublicKey)
+			}
+			if cred == "basic" {
+				q.Basic = []string{"alice", "pw-alice"}
+			} else {
+				q.Cookies = map[string]string{authCookieName: pre}
+			}
+			r := w.Do(q)
+			emit(map[string]interface{}{"ev": "Request", "trace": ci, "args": map[string]interface{}{"route": "/certgen/", "method": "POST", "cred": cred, "certreq": kind},
+				"out": map[string]interface{}{"signed": w.signedUnderCA(r), "class": r.Class(), "panic": r.Panic != "", "ready": false,
+					"sealedAfter": w.isSealed(), "readyMsgs": len(w.st.SignerIsReady), "ok": false, "published": false}})
+		}
+	}
+}
+
 func init() { vRunners["C09"] = runC09 }
 
 func runC09(t *testing.T, cases []map[string]interface{}, ev *vEvents) {
@@ -262,6 +292,7 @@ func runC09(t *testing.T, cases []map[string]interface{}, ev *vEvents) {
 					}
 				}
 			}
+			w.certProbes(ci, emit, pre)
 			rz := w.DoFunc(w.st.readyzHandler, vReq{Method: "GET", Path: readyzPath})
 			emit(map[string]interface{}{"ev": "Request", "trace": ci, "args": map[string]interface{}{"route": readyzPath, "method": "GET", "cred": "none"},
 				"out": map[string]interface{}{"signed": false, "class": rz.Class(), "panic": false, "ready": rz.Status == 200, "sealedAfter": w.isSealed(),
@@ -280,6 +311,11 @@ func runC09(t *testing.T, cases []map[string]interface{}, ev *vEvents) {
 				if !sealed {
 					w.buildPoolAfterUnseal()
 					pubOK = w.publishedOK()
+				}
+				if sealed {
+					// still sealed (wrong passphrase, or key material that loaded only in part): complete certificate
+					// requests of every type, with credentials that need no session key and with an old cookie
+					w.certProbes(ci, emit, w.mintCookie("alice", AuthTypePassword|AuthTypeU2F, 0))
 				}
 				rz := w.DoFunc(w.st.readyzHandler, vReq{Method: "GET", Path: readyzPath})
 				// a probe request: does the server sign now?
